@@ -217,4 +217,45 @@ def r12_5(ctx):
     ctx.floor("R12.5", "span producers", n, 2)
 
 
-RULES = [("R12.1", r12_1), ("R12.2", r12_2), ("R12.3", r12_3), ("R12.4", r12_4), ("R12.5", r12_5)]
+def r12_6(ctx):
+    """the non-validating number skipper finds the end of a number by searching the next separator; the
+    separators searched do not include whitespace, so the whitespace before the separator must be given
+    back (or the search set must contain the four whitespace bytes): the raw span of `1 ,` is `1`"""
+    prog = ctx.prog()
+    f = prog.find("Parser::skip_number_unsafe")
+    gt = [(b, t) for b, t in f.calls() if callee_is(t, "get_next_token")]
+    if not gt:
+        ctx.ob("R12.6", "skip_number_unsafe:shape", True, f.loc(), "the number skipper does not use the separator search", nontrivial=False)
+        return
+    toks = set()
+    for b, t in gt:
+        a = t["args"][1]
+        bs = a.get("bytes") if a["k"] == "const" else None
+        if bs is None and op_local(a) is not None:
+            sl, leaves = backward_slice(f, [op_local(a)])
+            for lf in leaves:
+                if lf[0] == "const" and op_int(lf[1]) is not None and lf[1].get("ty") == "u8":
+                    toks.add(op_int(lf[1]))
+                if lf[0] == "const" and lf[1].get("bytes"):
+                    toks |= set(bytes.fromhex(lf[1]["bytes"]))
+        elif bs:
+            toks |= set(bytes.fromhex(bs))
+    ws = {0x20, 0x09, 0x0A, 0x0D}
+    ctx.ob("R12.6", "skip_number_unsafe:separators", {0x2C, 0x5D, 0x7D} <= toks, f.loc(), f"separator set searched after a number: {sorted(chr(x) for x in toks)}")
+    if ws <= toks:
+        ctx.ob("R12.6", "skip_number_unsafe:span-ends-at-number", True, f.loc(), "the search stops at whitespace too")
+        return
+    back = [(b, t) for b, t in f.calls() if callee_is(t, "Reader::backward")]
+    isw = [(b, t) for b, t in f.calls() if callee_is(t, "is_whitespace")]
+    ok = False
+    if back and isw:
+        e = bool_switch_edges(f, isw[0][1]["dest"][0])
+        ok = bool(e) and all(b in f.reachable_from(e[0]) and b not in f.reachable_from(e[1], avoid={e[0]}) for b, t in back) and all(f.dominates(gt[0][0], b) for b, t in back)
+        # it is a loop: the whitespace test is reached again after giving a byte back
+        ok = ok and isw[0][0] in f.reachable_from(back[0][0])
+    ctx.ob("R12.6", "skip_number_unsafe:span-ends-at-number", ok, f.loc(),
+           "whitespace between the number and the separator is given back (loop of is_whitespace / backward after the search)" if ok else
+           "the separator search runs over the whitespace after a number and nothing gives it back: the unchecked iterators / get return `1 ` for `[1 , 2]` while the checked ones return `1`")
+
+
+RULES = [("R12.1", r12_1), ("R12.2", r12_2), ("R12.3", r12_3), ("R12.4", r12_4), ("R12.5", r12_5), ("R12.6", r12_6)]
